@@ -376,9 +376,16 @@ func init() {
 }
 
 func init() {
+	// sequential code: lock operations have no effect on the modelled state;
+	// in a goroutine fragment acquiring a lock is an interference point
+	lock := func(f *frame, c *ssa.CallCommon, args []sval) []sval {
+		if f.t.fc.Concurrent {
+			f.interfere()
+		}
+		return nil
+	}
 	noop := func(f *frame, c *ssa.CallCommon, args []sval) []sval { return nil }
-	// sequential code only: lock operations have no effect on the modelled state
-	trustedCalls["(*sync.Mutex).Lock"] = noop
+	trustedCalls["(*sync.Mutex).Lock"] = lock
 	trustedCalls["(*sync.Mutex).Unlock"] = noop
 }
 
